@@ -8,7 +8,7 @@ from . import common
 PROP = "C12"
 LEVEL = "exploration"
 RULE = (
-    "X-ENUM: 9 constexpr bodies (arithmetic, branch on argument, keyword default, string -> HASH, enum arithmetic, one constexpr calling "
+    "X-ENUM: 14 constexpr bodies (arithmetic, HASH of quoted / wrapped / empty strings, big integers, negative / tiny floats, unicode strings, branch on argument, keyword default, string -> HASH, enum arithmetic, one constexpr calling "
     "another, float / bool result, list result indexed at the call site, shift-or packing) x argument tuples x 9 call positions (main "
     "statement, inside an expression, argument of a call, if test, range bound, function body inlined / out of line, library function called from the main file, and from a function of the same library) "
     "-- quick: every (body, position) pair with 1 argument tuple; thorough: 4 argument tuples each.  Oracle: the harness executes the "
@@ -30,6 +30,11 @@ BODIES = {
     "nested": ("def helper(v):\n    return v * v + 1\n@constexpr\ndef cx(a, b):\n    return helper(a) + helper(b)\n", [(1, 2), (0, 0), (3, -3), (10, 5)]),
     "floatbool": ("def cx(a, b):\n    if b:\n        return a / 8\n    return a > 3\n", [(1, 1), (5, 0), (2, 0), (7, 2)]),
     "pack": ("def cx(a, b):\n    v = 0\n    for i in range(a):\n        v = (v << 8) | (b + i)\n    return v\n", [(2, 65), (3, 1), (0, 9), (4, 200)]),
+    "rawhash": ("def cx(nm, n):\n    return HASH(nm) + n\n", [('"abc"', 1), ('HASH("abc")', 2), ("plain name", 3), (' padded ', 4)]),
+    "emptyhash": ("def cx(nm, n):\n    return HASH(nm * n)\n", [("ab", 0), ("ab", 1), ('"', 2), ("", 3)]),
+    "bigint": ("def cx(a, b):\n    return a ** b + 1\n", [(3, 40), (2, 60), (7, 1), (10, 18)]),
+    "negfloat": ("def cx(a, b):\n    return -a / 3 + b * 1e-7\n", [(1, 1), (10, 0), (0, 5), (7, -2)]),
+    "unicode": ("def cx(nm, n):\n    return HASH('Tür ' + nm * n) % 1000\n", [("é", 1), ("Lampe", 2), ("", 3), ("€", 4)]),
     "list": ("def cx(a, b):\n    return [a, b, a + b, a * b]\n", [(2, 3), (0, 1), (5, 5), (-1, 4)]),
 }
 
